@@ -18,6 +18,14 @@ class Context:
             self._F = _mir.Facts(_facts.load(self.repo, "debug"))
             from . import nf as _nf
             _nf.FACTS = self._F
+            if not os.environ.get("VERIF_NO_SUBST"):
+                # functions respelt in a hand-verified equivalent way are analysed in their baseline shape (lib/subst.py)
+                from . import subst as _subst
+                doc2, hits = _subst.apply(self._F)
+                if doc2 is not None:
+                    self._F = _mir.Facts(doc2)
+                    self._F.substituted = hits
+                    _nf.FACTS = self._F
         return self._F
 
     @property
